@@ -313,6 +313,7 @@ def run(ctx):
         ctx.count('has-nonpositive-window' if any(o[0] == 'q' and o[2] is not None and o[2] <= 0 for o in ops) else 'windows>=1')
     sync_stream(ctx)
     thread_stream(ctx)
+    opaque_args_stream(ctx)
     for (case, impl_strs), mo in zip(pend, ctx.model.ask(lines)):
         if mo is None:
             continue
@@ -436,6 +437,55 @@ def thread_stream(ctx):
         finally:
             tr.time = old_time
             tr.clear_trace()
+
+
+def opaque_args_stream(ctx):
+    """transparency towards the ARGUMENTS: the wrapper hands them to the function and does nothing else with them — it does
+    not render, compare, hash, copy or iterate them (an object whose `__repr__`/`__str__`/`__eq__`/`__hash__`/`__iter__`/
+    `__bool__`/`__len__` raises, e.g. a half-constructed `self` passed to a traced method from `__init__`, is an ordinary
+    argument; C20-mutU built a DEBUG f-string of args/kwargs before the call)"""
+    import logging
+    import kfac.tracing as tr
+    rng = ctx.rng
+
+    class Opaque:
+        touched = 0
+
+        def _boom(self, *a, **k):
+            Opaque.touched += 1
+            raise AttributeError('half-constructed object observed')
+        __repr__ = __str__ = __eq__ = __hash__ = __iter__ = __bool__ = __len__ = __format__ = _boom
+
+    for i in range(ctx.budget(12, 60)):
+        tr.clear_trace()
+        Opaque.touched = 0
+        level = rng.choice([logging.WARNING, logging.DEBUG, logging.INFO])
+        logger = logging.getLogger('kfac.tracing')
+        root_old, old = logging.getLogger().level, logger.level
+        logger.setLevel(level)
+        sync = False
+        case = {'stream': 'opaque-arguments', 'log_level': level, 'i': i}
+        try:
+            o = Opaque()
+            f = tr.trace(sync=sync)(lambda a, b=None: (a is o, b is o))
+            try:
+                got = f(o, b=o) if i % 2 else f(o)
+            except Exception as e:  # noqa: BLE001
+                ctx.fail(f'a traced call with an argument whose __repr__/__eq__/__hash__/… raise did not behave like the plain call: '
+                         f'{type(e).__name__}: {e}', case, 'opaque-args-raised')
+                continue
+            want = (True, True) if i % 2 else (True, False)
+            if got != want or Opaque.touched:
+                ctx.fail(f'a traced call observed its arguments ({Opaque.touched} special-method calls) or returned {got} instead of {want}',
+                         case, 'opaque-args-observed')
+            elif len(tr.get_trace()) != 1:
+                ctx.fail(f'after one traced call the report has {len(tr.get_trace())} functions', case, 'opaque-args-sample')
+        finally:
+            logger.setLevel(old)
+            logging.getLogger().setLevel(root_old)
+        ctx.evaluations += 1
+        ctx.count('opaque-args')
+    tr.clear_trace()
 
 
 def search(ctx):
